@@ -1139,7 +1139,8 @@ pub fn rewrite_body(slot: &SlotSpec, found: &Found, retarget: &[(String, String)
     }
     // apply edits
     let mut edits = std::mem::take(&mut cx.edits);
-    edits.sort_by(|a, b| (a.start, a.seq).cmp(&(b.start, b.seq)));
+    // insertions at a position come before a replacement that starts there
+    edits.sort_by(|a, b| (a.start, a.end != a.start, a.seq).cmp(&(b.start, b.end != b.start, b.seq)));
     let mut out = String::new();
     let mut pos = 0usize;
     for e in &edits {
